@@ -14,13 +14,17 @@
 (* Deviation switches reproduce the engine BEFORE the fixes, to show the invariant is not  *)
 (* vacuous: FreshVm2 (nested VM restarts clock and counter), FreshAttempt (each regex      *)
 (* attempt restarts its counter, no poll at call entry), Catchable (a script handler can   *)
-(* intercept the limit error).                                                            *)
+(* intercept the limit error), Unpolled (kinds of instruction before which _check_limits  *)
+(* is skipped: a "poll only at safepoints" interpreter; {} in the engine as built - every  *)
+(* cycle of the interpreter contains a control transfer, and a cycle whose only transfer   *)
+(* is of an unpolled kind never reads the clock).                                          *)
 EXTENDS Naturals, Integers, Sequences, TLC
 
 CONSTANTS PV, PR,          \* poll intervals (1000 and 100 in the code)
           D,               \* deadline in ticks
           MaxNest,         \* bound on nesting of loops
-          FreshVm2, FreshAttempt, Catchable
+          FreshVm2, FreshAttempt, Catchable,
+          Unpolled         \* subset of Kinds
 
 VARIABLES now, loops, ic, rc, lateV, lateR, status, handler, vmStart
 vars == <<now, loops, ic, rc, lateV, lateR, status, handler, vmStart>>
@@ -37,10 +41,15 @@ Init == /\ now = 0 /\ loops = <<"main">> /\ ic = 0 /\ rc = 0 /\ lateV = 0 /\ lat
 Raise == /\ IF Catchable /\ handler THEN status' = "caught" ELSE status' = "timelimit"
          /\ UNCHANGED <<now, loops, ic, rc, lateV, lateR, handler, vmStart>>
 
+\* kinds of VM instruction: the control transfers that can close a cycle (backward jump, call, method call, construction,
+\* iterator step) and everything else
+Kinds == {"plain", "jump", "call", "method", "new", "iter"}
 \* one VM instruction in a main / cb / vm2 loop: _check_limits, then the instruction
 StepVM == /\ status = "run" /\ Top \in {"main", "cb", "vm2"}
-          /\ LET c == ic + 1 IN
-             IF c % PV = 0 /\ Expired(vmStart) THEN Raise
+          /\ \E k \in Kinds :
+             LET polled == k \notin Unpolled
+                 c == IF polled THEN ic + 1 ELSE ic IN
+             IF polled /\ c % PV = 0 /\ Expired(vmStart) THEN Raise
              ELSE /\ ic' = c % PV /\ now' = Tick
                   /\ lateV' = IF now > D THEN lateV + 1 ELSE lateV
                   /\ UNCHANGED <<loops, rc, lateR, status, handler, vmStart>>
